@@ -83,6 +83,7 @@ class ProxyHandler(RequestHandler):
             timeout=timeout,
             verify_ssl=False,
             trust_on_first_use=False,
+            decode_text=False,  # relay bodies byte-for-byte
         )
 
         logger.debug(
